@@ -272,7 +272,11 @@ func evalRTMP(res *kernel.Result, b *rbase, s *rtmpx.Session, f kernel.Fault) {
 					fail("write-nil-incomplete", "%s: write %d of %v returned nil but %d bytes were accepted by the transport, the complete message ends at %d", d.name, i, st.Msg, st.EndOff, d.base.E[i])
 					return
 				}
-				if pipe.WFaultFired && pipe.WFaultCall >= st.W0 && pipe.WFaultCall < st.W1 {
+				// an error-free short write is a transport breaking the io.Writer
+				// contract, not a failure: a library that writes the rest (as
+				// bufio's large-write path does) and delivers the whole message may
+				// return nil; that completeness was checked just above
+				if pipe.WFaultFired && !strings.HasPrefix(f.K, "short") && pipe.WFaultCall >= st.W0 && pipe.WFaultCall < st.W1 {
 					fail("write-error-swallowed", "%s: transport write call %d failed during write %d of %v but the call returned nil", d.name, pipe.WFaultCall, i, st.Msg)
 					return
 				}
@@ -302,7 +306,7 @@ func evalRTMP(res *kernel.Result, b *rbase, s *rtmpx.Session, f kernel.Fault) {
 				return
 			}
 		}
-		if pipe.WFaultFired {
+		if pipe.WFaultFired && !strings.HasPrefix(f.K, "short") {
 			explained := pipe.WFaultCall >= from.HsW0 && pipe.WFaultCall < from.HsW1 && from.HsErr != nil
 			for _, st := range from.Sent {
 				if pipe.WFaultCall >= st.W0 && pipe.WFaultCall < st.W1 && st.Err != nil {
@@ -729,6 +733,7 @@ func flvOne(p *kernel.Plan, res *kernel.Result, f kernel.Fault, file []byte, tag
 			probe := simnet.NewPipe("disk", nil, kernel.NewTape(p))
 			probe.NoYield = true
 			probe.RSeg = int(p.C("rseg"))
+			probe.EOFData = d.EOFData
 			probe.RErrAt, probe.RErrN, probe.RErr, probe.RErrStick = int(f.At), int(f.Arg), rtmpx.ErrInjRead, true
 			probe.Write(file)
 			probe.CloseWrite()
@@ -775,6 +780,9 @@ func flvOne(p *kernel.Plan, res *kernel.Result, f kernel.Fault, file []byte, tag
 		mx, _ := flv.NewMuxer(d)
 		check := func(what string, err error, w0, w1 int) bool {
 			hit := d.WFaultFired && d.WFaultCall >= w0 && d.WFaultCall < w1
+			if err == nil && hit && f.K == "short" {
+				return true // the rest may have been written by a later call: completeness is judged on the file below
+			}
 			if err == nil && hit {
 				res.Fail("C08/flv-write-error-swallowed", "fault %+v: %s returned nil although transport write call %d failed/was short", f, what, d.WFaultCall)
 				return false
@@ -806,6 +814,10 @@ func flvOne(p *kernel.Plan, res *kernel.Result, f kernel.Fault, file []byte, tag
 		res.Stat("fault_write_error", int64(d.St.WriteErrs))
 		res.Stat("fault_short_write", int64(d.St.Shorts))
 		if res.Key != "" || !d.WFaultFired {
+			return
+		}
+		if ok && !bytes.Equal(d.Wire, file) {
+			res.Fail("C08/flv-write-nil-incomplete", "fault %+v: every muxer call returned nil but only %d of %d bytes reached the disk", f, len(d.Wire), len(file))
 			return
 		}
 		// the durable bytes are a torn file: a prefix of the complete file
